@@ -362,6 +362,32 @@ pub fn erroneous_projects() -> Vec<Project> {
             expected_stdout: None,
         });
     }
+    // import graphs that are not DAGs
+    for (which, files) in [
+        ("self-import-main", vec![("main.gom", "package Main\nimport Main\n\nfn main() { string_println(\"hi\") }\n")]),
+        (
+            "self-import-lib",
+            vec![("main.gom", "package Main\nimport A\n\nfn main() { string_println(int32_to_string(A::f())) }\n"), ("A/lib.gom", "package A\nimport A\n\nfn f() -> int32 { 1 }\n")],
+        ),
+        (
+            "self-import-lib-used",
+            vec![("main.gom", "package Main\nimport A\n\nfn main() { string_println(int32_to_string(A::g())) }\n"), ("A/lib.gom", "package A\nimport A\n\nfn f() -> int32 { 1 }\nfn g() -> int32 { A::f() + 1 }\n")],
+        ),
+        (
+            "two-cycle",
+            vec![
+                ("main.gom", "package Main\nimport A\n\nfn main() { string_println(int32_to_string(A::f())) }\n"),
+                ("A/lib.gom", "package A\nimport B\n\nfn f() -> int32 { 1 }\n"),
+                ("B/lib.gom", "package B\nimport A\n\nfn g() -> int32 { 2 }\n"),
+            ],
+        ),
+        (
+            "import-of-main",
+            vec![("main.gom", "package Main\nimport A\n\nfn helper() -> int32 { 5 }\nfn main() { string_println(int32_to_string(A::f())) }\n"), ("A/lib.gom", "package A\nimport Main\n\nfn f() -> int32 { 1 }\n")],
+        ),
+    ] {
+        out.push(Project { name: format!("not-a-dag-{}", which), files: files.into_iter().map(|(a, b)| (a.to_string(), b.to_string())).collect(), expected_stdout: None });
+    }
     // one package, one loop of the compiler reporting >= 3 diagnostics: their order is observable
     for (which, src) in [
         ("missing-trait-methods", "package Main\n\ntrait Tr { fn a(Self) -> int32; fn b(Self) -> int32; fn c(Self) -> int32; fn d(Self) -> int32; fn e(Self) -> int32; }\nstruct S { v: int32 }\nimpl Tr for S { }\nfn main() { () }\n"),
